@@ -298,3 +298,4 @@ fire("C03", B, "        if docstring_is_none and arg_is_string and arg._index_ov
 fire("C03", B, "    return max(instruction._n_args_override or 1, _instrsize(arg_value))", "    return instruction._n_args_override or _instrsize(arg_value)", "the original defect: a recorded width truncates a grown operand (R03.5)")
 fire("C03", B, "                    if n_instructions != _n_args(instruction, new_arg_value):", "                    if not instruction._n_args_override and n_instructions != _instrsize(new_arg_value):", "no new layout pass when a jump outgrows its recorded width (R03.7)")
 silent(["C03", "C05", "C01", "C06"], B, "    return max(instruction._n_args_override or 1, _instrsize(arg_value))", "    minimal = _instrsize(arg_value)\n    recorded = instruction._n_args_override\n    return minimal if recorded is None or recorded < minimal else recorded", "the same maximum spelled out")
+fire("C11", C, "    if len(set(code.co_freevars)) != len(code.co_freevars):\n", "    if False:\n", "the original defect: repeated free variable names accepted (R11.Q)")
